@@ -85,6 +85,9 @@ class Engine:
         self.extra = {}
         self._assumed = set()
         self._strings = {}
+        self.universals = []         # closures term -> Bool: universally quantified facts assumed on this path
+        self.inst_terms = []         # terms at which every universal is instantiated
+        self.last_frame_locals = None
 
     def fresh(self, base):
         n = self.counter.get(base, 0)
@@ -738,27 +741,13 @@ class Engine:
             raise Unsupported("bit operation %s on operands whose non-negative width cannot be established" % op)
         w = max(wa, wb)
         za, zb = zt(a), zt(b)
-        # bit i of x is (x div 2^i) mod 2; the sums below are the textbook definitions of and/or/xor
+        # shared trusted definitions (engine/common/bits.py): bit i of x is (x div 2^i) mod 2
+        from ..common import bits
         if op == "^":
-            r = 0
-            for i in range(w):
-                ai = (za / (1 << i)) % 2
-                bi = (zb / (1 << i)) % 2
-                r = r + z3.If(ai + bi == 1, 1 << i, 0)
-            return V(r, 0, (1 << w) - 1)
+            return V(bits.xor_bits(za, zb, w), 0, (1 << w) - 1)
         if op == "&":
-            r = 0
-            for i in range(min(wa, wb)):
-                ai = (za / (1 << i)) % 2
-                bi = (zb / (1 << i)) % 2
-                r = r + z3.If(ai + bi == 2, 1 << i, 0)
-            return V(r, 0, min((1 << wa) - 1, (1 << wb) - 1))
-        r = 0
-        for i in range(w):
-            ai = (za / (1 << i)) % 2
-            bi = (zb / (1 << i)) % 2
-            r = r + z3.If(ai + bi >= 1, 1 << i, 0)
-        return V(r, 0, (1 << w) - 1)
+            return V(bits.and_bits(za, zb, min(wa, wb)), 0, min((1 << wa) - 1, (1 << wb) - 1))
+        return V(bits.or_bits(za, zb, w), 0, (1 << w) - 1)
 
     def compare(self, op, a, b):
         if isinstance(a, V) and isinstance(b, V):
@@ -834,6 +823,9 @@ class Engine:
                 self.exec(body, fr)
             except _Return as r:
                 ret = r.v
+            if len(self.frames) == 1:
+                from .contract import Locals
+                self.last_frame_locals = Locals(self, fr)
             self.end_scope(fr)
             return ret
         finally:
@@ -919,13 +911,29 @@ class Engine:
         init = inner[-1] if "init" in d and inner else None
         if isinstance(ct, TArray):
             if ct.n is None:
-                # VLA: the size expression is the first child
-                if not ct.vla_expr or not inner:
+                # VLA: clang 14's JSON has the bound only in the type spelling; frontend.vla_bound lets clang type it
+                if not ct.vla_expr:
                     raise Unsupported("array local without bound")
-                n = self.rv(inner[0], fr)
+                from .frontend import vla_bound
+                expr, pids, text = vla_bound(self.tu, fr.fname, d)
+                probe = Frame(fr.fname)
+                for pid, nm in pids.items():
+                    did = fr.names.get(nm)
+                    if did is None or did not in fr.locals:
+                        raise Unsupported("VLA bound names %s which is not in scope" % nm)
+                    slot = fr.locals[did]
+                    if isinstance(slot, Block):
+                        slot = self.load(Ptr(slot, (("i", V(0)),), slot.elem), d)
+                    probe.locals[pid] = slot
+                self.frames.append(probe)
+                try:
+                    n = self.rv(expr, probe)
+                finally:
+                    self.frames.pop()
+                self.notes.add("VLA bound `%s` typed by clang in a probe function (clang 14 JSON omits the bound expression)" % text)
                 self.require("ub", "vla_bound_positive", zt(n) > 0, d)
                 b = self.new_block(d["name"], ct.elem, V(n.t, max(n.lo or 1, 1), n.hi), "vla")
-                if init is not None and init is not inner[0]:
+                if init is not None:
                     raise Unsupported("VLA initialiser")
             else:
                 b = self.new_block(d["name"], ct.elem, ct.n, "local")
@@ -1219,7 +1227,10 @@ class Engine:
     def ex_DeclRefExpr(self, e, fr):
         rd = e["referencedDecl"]
         if rd["kind"] == "EnumConstantDecl":
-            return V(self.tu.enumval[rd["id"]])
+            v = self.tu.enumval.get(rd["id"])
+            if v is None:
+                raise Unsupported("value of enumerator %s not computable by the front end" % rd.get("name"))
+            return V(v)
         if rd["kind"] == "FunctionDecl":
             return FnPtr(self.tu.func_ids[rd["name"]])
         raise Unsupported("rvalue DeclRefExpr to %s" % rd["kind"])
